@@ -54,7 +54,7 @@ def upd(n, strategy="create_unique", checklines=10, fail_at=None, backup=True):
 
 ALPHA = [
     upd(1), upd(2, "merge"), upd(2, "replace"), upd(2, "error"), upd(3), upd(0),
-    upd(1, checklines=0, fail_at=2), upd(3, checklines=10, fail_at=1),
+    upd(1, checklines=0, fail_at=2), upd(3, checklines=10, fail_at=1), dict(upd(1), reads=True),
     {"op": "delete", "ids": ["m1"], "form": "str", "backup": True},
     {"op": "delete", "ids": ["g1", "exon_1"], "form": "list", "backup": True},
     {"op": "addrel", "p": "g1", "c": "e1", "l": 2, "retype": False},
@@ -88,7 +88,7 @@ def gtf_upd(n, strategy="create_unique", checklines=10, fail_at=None, backup=Tru
 
 
 GTF_ALPHA = [
-    gtf_upd(1), gtf_upd(2), gtf_upd(3, "merge"), gtf_upd(1, "merge"), gtf_upd(0), gtf_upd(1, checklines=0, fail_at=1),
+    gtf_upd(1), dict(gtf_upd(2), reads=True), gtf_upd(3, "merge"), gtf_upd(1, "merge"), gtf_upd(0), gtf_upd(1, checklines=0, fail_at=1),
     {"op": "delete", "ids": ["T1"], "form": "str", "backup": True},
     {"op": "delete", "ids": ["G1", "exon_1"], "form": "list", "backup": False},
     {"op": "addrel", "p": "G1", "c": "exon_2", "l": 3, "retype": False},
@@ -118,7 +118,7 @@ def gen_op(rng):
         if rng.random() < 0.3:
             fail = rng.randrange(0, len(feats) + 1)
         return {"op": "update", "feats": feats, "strategy": rng.choice(STRATS), "checklines": rng.choice([0, 1, 10]),
-                "fail_at": fail, "backup": rng.random() < 0.7}
+                "fail_at": fail, "backup": rng.random() < 0.7, "reads": rng.random() < 0.3}
     if r < 0.7:
         ids = [rng.choice(["g1", "m1", "e1", "g2", "m2", "exon_1", "exon_2", "gene_1", "nope"]) for _ in range(rng.choice([1, 1, 2]))]
         return {"op": "delete", "ids": ids, "form": rng.choice(["str", "list", "feature"]) if len(ids) == 1 else "list",
@@ -188,6 +188,15 @@ def failing_source(objs, k):
         raise SourceFailure("feature source failed after %d items" % k)
 
 
+def reading_source(db, objs):
+    """a lazy source that queries the database it is being imported into (as db.update(db.create_introns()) does)"""
+    for o in objs:
+        for i in POOL[:8]:
+            list(db.children(i))
+            list(db.parents(i, level=1))
+        yield o
+
+
 def dump_file(path):
     conn = sqlite3.connect(path)
     try:
@@ -230,7 +239,13 @@ def api_view(db):
         ids = [f.id for f in db.all_features()]
     except Exception:
         ids = ["<error>"]
-    return {"lookups": looks, "counts": counts, "ids": ids}
+    rel = []
+    for i in POOL:
+        try:
+            rel.append([i, sorted(f.id for f in db.children(i)), sorted(f.id for f in db.parents(i))])
+        except Exception:
+            rel.append([i, ["<error>"], ["<error>"]])
+    return {"lookups": looks, "counts": counts, "ids": ids, "rel": rel}
 
 
 def run_impl(c):
@@ -266,6 +281,8 @@ def run_impl(c):
                 if o["op"] == "update":
                     objs = [imp.to_feature(x, dialect) for x in o["feats"]]
                     data = objs if o["fail_at"] is None or o["fail_at"] > len(objs) else failing_source(objs, o["fail_at"])
+                    if o.get("reads"):
+                        data = reading_source(db, data)
                     db.update(data, make_backup=o["backup"], merge_strategy=o["strategy"], checklines=o["checklines"],
                               verbose=False)
                 elif o["op"] == "delete":
@@ -332,8 +349,9 @@ def coq_step(s):
     looks = L.lst(["(%s, %s)" % (L.s(i), L.res(r, lambda d: imp.coq_row(d, d["id"], d["bin"]))) for i, r in api["lookups"]],
                   "(str * result row)")
     counts = L.lst(["(%s, %s)" % (L.opt(t, L.s, "str"), L.z(n)) for t, n in api["counts"]], "(option str * Z)")
-    return "(mkStepObs %s %s %s %s %s %s %s)" % (imp.coq_tables(s["tables"]), mem, L.opt(s["bak"], imp.coq_tables, "tables"), out,
-                                                looks, counts, L.ss(api["ids"]))
+    rel = L.lst(["(%s, (%s, %s))" % (L.s(i), L.ss(ch), L.ss(pa)) for i, ch, pa in api["rel"]], "(str * (list str * list str))")
+    return "(mkStepObs %s %s %s %s %s %s %s %s)" % (imp.coq_tables(s["tables"]), mem, L.opt(s["bak"], imp.coq_tables, "tables"), out,
+                                                   looks, counts, L.ss(api["ids"]), rel)
 
 
 def coq_case(c, o):
